@@ -562,6 +562,48 @@ def _none_result_proves_nonempty(call, source_text, f, par, idx):
         if known:
             return (f"reached only where `{v}` is None; {h.qual}() returns None only from inside its loop over {source_text}, so that "
                     "collection has an element")
+    # the same inside `while (V := self.<helper>(<collection>)) is None:` -- the body runs only after the helper has returned None
+    for anc, child in chain:
+        if not (isinstance(anc, ast.While) and any(child is s for s in anc.body)):
+            continue
+        t = anc.test
+        if not (isinstance(t, ast.Compare) and len(t.ops) == 1 and isinstance(t.ops[0], ast.Is) and isinstance(t.comparators[0], ast.Constant) and
+                t.comparators[0].value is None and isinstance(t.left, ast.NamedExpr) and isinstance(t.left.value, ast.Call) and
+                isinstance(t.left.value.func, ast.Attribute) and isinstance(t.left.value.func.value, ast.Name) and t.left.value.func.value.id == "self"):
+            continue
+        hc = t.left.value
+        h = idx.lookup_method(f.cls, hc.func.attr)
+        if h is None or h.node is f.node:
+            continue
+        params = [a.arg for a in h.node.args.args][1:]
+        pos = [i_ for i_, a_ in enumerate(hc.args) if ast.unparse(a_) == source_text]
+        if len(pos) != 1 or pos[0] >= len(params):
+            continue
+        pname = params[pos[0]]
+        if any(isinstance(n, ast.Name) and n.id == pname and isinstance(n.ctx, ast.Store) for n in ast.walk(h.node)):
+            continue
+        body = [s for s in h.node.body if not (isinstance(s, ast.Expr) and isinstance(s.value, ast.Constant))]
+        last = body[-1] if body else None
+        if not (isinstance(last, ast.Return) and last.value is not None and not (isinstance(last.value, ast.Constant) and last.value.value is None)):
+            continue
+        # the value returned at the end must not be None: a container built in the helper
+        if isinstance(last.value, ast.Name):
+            made = [n for n in ast.walk(h.node) if isinstance(n, ast.Assign) and len(n.targets) == 1 and isinstance(n.targets[0], ast.Name) and
+                    n.targets[0].id == last.value.id]
+            if not made or not all(isinstance(n.value, (ast.Dict, ast.List, ast.Set, ast.Tuple)) or
+                                   (isinstance(n.value, ast.Call) and isinstance(n.value.func, ast.Name) and n.value.func.id in
+                                    ("dict", "list", "set", "defaultdict", "tuple")) for n in made):
+                continue
+        elif not isinstance(last.value, (ast.Dict, ast.List, ast.Set, ast.Tuple, ast.Constant)):
+            continue
+        hpar = _parents(h.node)
+        nones = [r for r in ast.walk(h.node) if isinstance(r, ast.Return) and (r.value is None or (isinstance(r.value, ast.Constant) and r.value.value is None))]
+        others = [r for r in ast.walk(h.node) if isinstance(r, ast.Return) and r not in nones and r is not last]
+        if not nones or others:
+            continue
+        if all(any(isinstance(a, ast.For) and isinstance(a.iter, ast.Name) and a.iter.id == pname for a, _ in _ancestors(r, hpar)) for r in nones):
+            return (f"inside `while ({t.left.target.id} := self.{hc.func.attr}(...)) is None`; {h.qual}() returns None only from inside its loop over "
+                    f"its parameter `{pname}` (= {source_text}), so that collection has an element")
     return None
 
 
